@@ -63,6 +63,16 @@ def generate(rng, tier):
     for n in list(range(0, 521)) + [1000, 1023, 1024, 1025, 2047, 2049, 4097]:
         for size in (16, 32):
             cases.append({"lines": [f"xmemcpy {size} {n}"], "cls": "xmemcpy", "nontrivial": n > 4})
+    # documents larger than one 64 KiB pool chunk (string buffer, node stack and children blocks all cross chunk boundaries)
+    for target in ([66000] if quick else [66000, 131100, 200000]):
+        parts, size, i = [], 0, 0
+        while size < target:
+            item = rng.choice([b'{"id":%d,"name":"%s","tags":["a","b\\n"],"v":[1.5,-2,null,true]}' % (i, b"n" * rng.randrange(0, 90)),
+                               b'"%s"' % (b"s" * rng.randrange(0, 300)), b"%d.25" % i, b"[[],{},[%d]]" % i])
+            parts.append(item)
+            size += len(item) + 1
+            i += 1
+        add(b"[" + b",".join(parts) + b"]", "big-doc", "pool")
     for d in ([1, 2, 8, 31, 32, 33, 64] if quick else range(1, 65)):
         add(b"[" * d + b"1" + b"]" * d, "depth")
         add(b'{"a":' * d + b"null" + b"}" * d, "depth")
